@@ -81,6 +81,9 @@ func verifDeep(v reflect.Value, sparseInt bool) reflect.Value {
 		if v.Type() == mutexPtrType {
 			return reflect.ValueOf(&sync.Mutex{})
 		}
+		if e := v.Type().Elem(); e.Kind() == reflect.Struct && e.Name() == "Mutex" { // the scheduler's mutex in instrumented builds
+			return reflect.New(e)
+		}
 	}
 	panic(fmt.Sprintf("VERIF-INFRA: VerifClone does not understand kind %s (%s)", v.Kind(), v.Type()))
 }
@@ -211,3 +214,6 @@ func VerifExternal(d *Device) string {
 	defer d.externalTrackerMutex.Unlock()
 	return fmt.Sprintf("%v", d.externalNoteTracker)
 }
+
+// VerifSetMidiIn sets the MIDI-input channel of a (cloned) device.
+func VerifSetMidiIn(d *Device, in <-chan midi.Event) { d.midiIn = in }
